@@ -362,6 +362,61 @@ func (g *c03gen) str(d int, leaf bool) string {
 	return "Str"
 }
 
+// untyped generates an arbitrary (mostly ill-typed) expression over the environment's names: it exercises
+// the error paths of the checker — which error is reported first, where, and how the tree is annotated.
+func (g *c03gen) untyped(d int) string {
+	atoms := []string{"I", "I8", "U64", "F64", "F32", "B", "Str", "Any", "Ints", "Strs", "Anys", "Arr", "MSI", "MII", "St", "PSt", "Sts", "My",
+		"Fi", "Nope", "1", "2", "0", "1.5", "\"a\"", "\"k\"", "true", "false", "nil"}
+	if len(g.closure) > 0 {
+		atoms = append(atoms, "#", "#", "#")
+	}
+	if d <= 0 || g.rng.Intn(5) == 0 {
+		return atoms[g.rng.Intn(len(atoms))]
+	}
+	sub := func() string { return g.untyped(d - 1) }
+	par := func() string { return "(" + sub() + ")" }
+	switch g.rng.Intn(16) {
+	case 0:
+		return fmt.Sprintf("(%s %s)", g.pick("not", "!", "-", "+"), par())
+	case 1, 2, 3:
+		ops := []string{"+", "-", "*", "/", "%", "**", "==", "!=", "<", ">", "<=", ">=", "and", "or", "&&", "||", "in", "not in", "..", "contains", "startsWith", "endsWith", "matches"}
+		return fmt.Sprintf("(%s %s %s)", par(), ops[g.rng.Intn(len(ops))], par())
+	case 4:
+		return fmt.Sprintf("%s%s%s", par(), g.pick(".", "?."), g.pick("X", "Y", "Nope", "k", "Str"))
+	case 5:
+		return fmt.Sprintf("%s[%s]", par(), sub())
+	case 6:
+		return fmt.Sprintf("%s[%s:%s]", par(), g.pick("", sub()), g.pick("", sub()))
+	case 7:
+		n := g.rng.Intn(3)
+		args := make([]string, n)
+		for i := range args {
+			args[i] = sub()
+		}
+		return fmt.Sprintf("%s(%s)", g.pick("Fi", "Fs", "Ff", "Fv", "Fa", "Fb", "Mi", "Ms", "Mp", "Nope", "I", "Any"), strings.Join(args, ", "))
+	case 8:
+		n := g.rng.Intn(2)
+		args := make([]string, n)
+		for i := range args {
+			args[i] = sub()
+		}
+		return fmt.Sprintf("%s%s%s(%s)", par(), g.pick(".", "?."), g.pick("Mi", "Ms", "Nope", "X", "Len"), strings.Join(args, ", "))
+	case 9:
+		return fmt.Sprintf("len(%s)", sub())
+	case 10, 11:
+		coll := sub()
+		return fmt.Sprintf("%s(%s, {%s})", g.pick("all", "any", "none", "one", "filter", "map", "count"), coll,
+			g.inClosure(tAny, func() string { return g.untyped(d - 1) }))
+	case 12:
+		return fmt.Sprintf("(%s ? %s : %s)", sub(), sub(), sub())
+	case 13:
+		return fmt.Sprintf("[%s, %s]", sub(), sub())
+	case 14:
+		return fmt.Sprintf("{a: %s, \"b\": %s, (%s): 1}", sub(), sub(), sub())
+	}
+	return atoms[g.rng.Intn(len(atoms))]
+}
+
 // ---------------------------------------------------------------------------------------------
 
 func errClassOf(msg string) string {
@@ -462,12 +517,13 @@ var c03Expects = []struct {
 }
 
 type c03Case struct {
-	env    zooEnv
-	src    string
-	expect int
-	fault  string
-	static bool
-	goal   reflect.Type
+	env     zooEnv
+	src     string
+	expect  int
+	fault   string
+	static  bool
+	goal    reflect.Type
+	refWell bool
 }
 
 func c03Envs() []zooEnv {
@@ -518,6 +574,17 @@ func runC03(c *Ctx) {
 		}
 		cases = append(cases, cs)
 	}
+	// arbitrary trees (tie only: error paths, positions, classes, annotations)
+	nUntyped := n
+	for i := 0; i < nUntyped; i++ {
+		g := &c03gen{rng: c.Rng}
+		e := envs[c.Rng.Intn(len(envs))]
+		ex := 0
+		if c.Rng.Intn(4) == 0 {
+			ex = 1 + c.Rng.Intn(3)
+		}
+		cases = append(cases, c03Case{env: e, src: g.untyped(1 + c.Rng.Intn(3)), expect: ex, static: false, goal: nil})
+	}
 	// a few fixed probes (DESIGN section 6 #5, #14-16, #23)
 	for _, s := range []struct {
 		src string
@@ -555,7 +622,11 @@ func runC03(c *Ctx) {
 	}
 	for i, cs := range cases {
 		if !reals[i].parsed {
-			c.R.Mismatch("generator", cs.src, "", reals[i].res)
+			if cs.goal != nil || cs.fault != "" {
+				c.R.Mismatch("generator", cs.src, "", reals[i].res)
+			} else {
+				c.R.Count("untyped:unparsable", 1)
+			}
 			continue
 		}
 		nontrivial := strings.ContainsAny(cs.src, "+-*/%<>=(.[?{")
@@ -603,6 +674,9 @@ func runC03(c *Ctx) {
 			c.R.Count("oracle:mutant-not-ill-typed-by-reference", 1)
 			continue
 		}
+		// "all its operands are statically typed": the Lean definition `staticNode` decides
+		cs.static = strings.HasSuffix(refs[i], " true)")
+		cs.refWell = refWell
 		c03Oracle(c, cs)
 	}
 	for _, k := range []string{"check:accepted", "check:rejected", "oracle:static-runs", "oracle:mutants-rejected"} {
@@ -671,7 +745,13 @@ func c03Oracle(c *Ctx, cs c03Case) {
 		}
 		return
 	}
-	if cerr != nil || !cs.static || cs.goal == nil {
+	if cerr == nil && !cs.refWell {
+		// accepted although the reference rules give it no type (arbitrary trees; the deliberate mutants are handled above)
+		violateKeyed(c, Violation{What: "an expression that the reference typing rules reject is accepted by Compile", Key: "c03:ill-typed-accepted:" + c03IllKey(cs.src), Input: in,
+			Expect: "Compile rejects", Got: "accepted"})
+		return
+	}
+	if cerr != nil || !cs.static {
 		if cerr != nil && cs.goal != nil && cs.expect == 0 {
 			// a generated well-typed expression is rejected: the generator or the reference rules are off
 			c.R.Mismatch("c03/well-typed-rejected", cs.env.Name+" | "+cs.src, "accepted by the reference rules", firstLine(cerr.Error()))
@@ -710,6 +790,17 @@ func c03Oracle(c *Ctx, cs c03Case) {
 				Expect: want.String(), Got: fmt.Sprintf("%T", rv.out)})
 		}
 	}
+}
+
+// c03IllKey classifies an accepted reference-ill-typed expression by the construct responsible
+func c03IllKey(src string) string {
+	switch {
+	case strings.Contains(src, "["):
+		return "bad-index"
+	case strings.Contains(src, "("):
+		return "int-literal-to-non-numeric-param"
+	}
+	return "other"
 }
 
 func c03DynKey(src string) string {
